@@ -192,6 +192,10 @@ class ModuleEnv:
         f = node.func
         # method calls ------------------------------------------------------------------
         if isinstance(f, ast.Attribute):
+            src_ = ast.unparse(f)
+            if src_ in eng.c.get('calls', {}) and not isinstance(f.value, ast.Name):
+                # a call model stated for this exact receiver expression (e.g. self._loaded.sum): the receiver itself need not be modelled
+                return self.apply_contract(src_, node, eng, st, contract=eng.c['calls'][src_])
             # cls.method / self.method / Class.method -> contract
             if isinstance(f.value, ast.Name) and f.value.id in ('cls', 'self') and f.value.id in st.env:
                 key = f'{eng.cls_name}.{f.attr}'
